@@ -605,6 +605,10 @@ func (s *Server) RoundTrip(req *http.Request) (*http.Response, error) {
 	if s.ActorFn != nil {
 		r.Actor = s.ActorFn()
 	}
+	if r.Verb == "create" && r.Name == "" && r.Body != nil {
+		// the target of a POST is named in the body: fill it in so that plans and identities see it
+		r.Name = nestedString(r.Body, "metadata", "name")
+	}
 	key := objKey(r.Kind, r.NS, r.Name)
 	if r.Name != "" {
 		if o := s.objs[key]; o != nil {
